@@ -70,16 +70,28 @@ def check(ctx):
         # beyond the listed properties: Start / Serve / Wait / Close with real UDP sockets on loopback (drift detector)
         for cfg in ("Lifecycle_2_0.cfg", "Lifecycle_3_0.cfg", "Lifecycle_3_2.cfg", "Lifecycle_0_0.cfg", "Lifecycle_1_1.cfg"):
             ctx.design("Lifecycle.tla", cfg, workers=2)
+        if not ctx.quick:
+            # the weakened design: a 0-byte read taken for end of stream ends the Serve loop
+            ctx.design("Lifecycle.tla", "Lifecycle_2_0_emptyquits.cfg", expect_fail="ServesWhileOpen")
         wd = ctx.scratch.sub("lifecycle")
         lt = os.path.join(wd, "life.ndjson")
-        try:
-            core.run_harness(ctx.need_harness(), ["lifecycle", "-seed", ctx.seed, "-out", lt], wd, timeout=600)
-            runner.run_job(ctx, runner.TraceJob("lifecycle", "LifecycleTrace", lt, {"Lens": core.tla_set(["LIFE"])}, boundary=lambda e: e.get("ev") == "lstart", drift=True))
-            lifecycle_lines = sum(1 for _ in open(lt))
-        except Infra as e:
-            ctx.notes.append("lifecycle conformance skipped: %s" % str(e)[:200])
-            lifecycle_lines = 0
-        c = {"lifecycle_events_real_sockets": lifecycle_lines, "chains": 0, "datagrams": 0, "mutated": 0, "replies": 0, "drops": 0, "probes": 0, "kinds": set(), "mutations": set(), "plugins_seen": set()}
+        sock_dgs = 0
+
+        def relife(ctx2, scenario, out):
+            core.run_harness(ctx2.need_harness(), ["lifecycle", "-seed", ctx2.seed, "-out", out], ctx2.scratch.sub("relife"), timeout=600)
+
+        core.run_harness(ctx.need_harness(), ["lifecycle", "-seed", ctx.seed, "-out", lt], wd, timeout=600)
+        lifecycle_lines = sum(1 for _ in open(lt))
+        sock_dgs = sum(1 for line in open(lt) if '"ev":"dgs"' in line)
+        if sock_dgs == 0:
+            raise Infra("the real-socket run delivered no datagram (no loopback sockets?)")
+        # C01 on the REAL receive loops: byte strings of every length (0 included) over UDP, then a request that must be answered
+        runner.run_job(ctx, runner.TraceJob("sockets", "LifecycleTrace", lt, {"Lens": core.tla_set(["C01"])}, boundary=lambda e: False, replay=relife, attempts=2))
+        # everything else about Start / Serve / Wait / Close: drift detector
+        ev, tr = ctx.events, ctx.traces_ok
+        runner.run_job(ctx, runner.TraceJob("lifecycle", "LifecycleTrace", lt, {"Lens": core.tla_set(["LIFE"])}, boundary=lambda e: e.get("ev") == "lstart", drift=True))
+        ctx.events, ctx.traces_ok = ev, tr
+        c = {"lifecycle_events_real_sockets": lifecycle_lines, "datagrams_over_real_sockets": sock_dgs, "chains": 0, "datagrams": 0, "mutated": 0, "replies": 0, "drops": 0, "probes": 0, "kinds": set(), "mutations": set(), "plugins_seen": set()}
         for p in paths:
             for line in open(p):
                 e = json.loads(line)
@@ -103,7 +115,8 @@ def check(ctx):
                 "the full example chains, the empty chain), each in its own process, each fed a seeded history of well-formed datagrams of every message type "
                 "(DHCPv4 incl. hardware lengths 0/16, relayed, other-server; DHCPv6 incl. IA_PD hints of length 0, relay depth 0..3, no client id) and byte-mutated "
                 "ones (truncate, bit flips, option/length bytes, duplicated slices, junk, 65535 bytes, empty); outcome per datagram from the send hook, recover() and "
-                "a 10 s watchdog that inspects goroutine stacks; liveness probes after every history; distinct_nontrivial = mutated datagrams. The byte axis is SAMPLED.")
+                "a 10 s watchdog that inspects goroutine stacks; liveness probes after every history; distinct_nontrivial = mutated datagrams. The byte axis is SAMPLED. "
+                "Plus the real receive loops (server.Start on loopback UDP sockets, no hooks): empty / 1-byte / truncated / junk / 60000-byte datagrams, each followed by a request that must be answered.")
     else:
         h = ctx.need_harness(True)
         rounds = 3 if ctx.quick else 25
